@@ -75,3 +75,23 @@ _old_register2 = register
 def register(X, EXTRA):
     _old_register2(X, EXTRA)
     EXTRA.append(lambda F: g3(F, X))
+
+
+def g4(F, X):
+    st = X.strip_comments(X.read(X.FP + "/stats.rs"))
+    body = X.fn_body(st, "from_system_id")
+    tab = None
+    if body:
+        ids = [int(x) for x in re.findall(r"(\d+)\s*=>\s*Ok\s*\(\s*SystemId::", body)]
+        if ids:
+            tab = ids
+    F.add("system_id_table", "list N", tab, [3, 4, 5, 6, 7, 8, 10, 15, 17, 18, 19, 32, 33, 34, 35, 36, 37, 38, 39, 255],
+          "stats.rs SystemId::from_system_id: the recognised system ids")
+
+
+_old_register3 = register
+
+
+def register(X, EXTRA):
+    _old_register3(X, EXTRA)
+    EXTRA.append(lambda F: g4(F, X))
